@@ -549,7 +549,7 @@ func (c *octx) cancelRules() *eng.Violation {
 		case sc.Ctx.Kind == "deadline":
 			d := sc.Ctx.DeadlineUs * 1000
 			after = func(ev simrt.Event) bool { return ev.T > d }
-			cancelled = e.T > d
+			cancelled = e.T >= d // the deadline is off the callbacks' time grid: a run ending exactly there was ended by it
 		}
 		if !cancelled {
 			continue
